@@ -27,6 +27,40 @@ theorem gen_server_behaviors :
     Gen.SmileDeClientSrc.hashes.lookup "de::Deserializer<'de> for &'amutClientDeserializer<'de,R>::impl_deserialize_body!" = some 16925310013538528895 /- "&'amutserde_smile::Deserializer<'de,R>,ValueBehavior" -/ := by
   decide +kernel
 
+/-- every public entry point of both formats (`server_from_*` / `client_from_*`, one per input source:
+    reader, str, slice, mut slice) builds the deserializer of its own side, reads one value through it and then
+    requires the end of the input; each constructor only wraps the format's own deserializer -/
+theorem gen_entry_points :
+    Gen.JsonDeServerSrc.hashes.lookup "fn server_from_reader" = some 7523097036048896092 /- "{letmutde=ServerDeserializer::from_reader(reader);letvalue=T::deserialize(&mutde)?;de.end()?;Ok(value)}" -/ ∧
+    Gen.JsonDeServerSrc.hashes.lookup "fn server_from_str" = some 15181452474860574692 /- "{letmutde=ServerDeserializer::from_str(s);letvalue=T::deserialize(&mutde)?;de.end()?;Ok(value)}" -/ ∧
+    Gen.JsonDeServerSrc.hashes.lookup "fn server_from_slice" = some 9726012999506703783 /- "{letmutde=ServerDeserializer::from_slice(s);letvalue=T::deserialize(&mutde)?;de.end()?;Ok(value)}" -/ ∧
+    Gen.JsonDeServerSrc.hashes.lookup "ServerDeserializer<IoRead<R>>::from_reader" = some 10251595329488348137 /- "{ServerDeserializer(serde_json::Deserializer::from_reader(reader))}" -/ ∧
+    Gen.JsonDeServerSrc.hashes.lookup "ServerDeserializer<SliceRead<'a>>::from_slice" = some 405430658713935032 /- "{ServerDeserializer(serde_json::Deserializer::from_slice(bytes))}" -/ ∧
+    Gen.JsonDeServerSrc.hashes.lookup "ServerDeserializer<StrRead<'a>>::from_str" = some 4795122866350345893 /- "{ServerDeserializer(serde_json::Deserializer::from_str(s))}" -/ ∧
+    Gen.JsonDeServerSrc.hashes.lookup "ServerDeserializer<R>::end" = some 1737334758775072841 /- "{self.0.end()}" -/ ∧
+    Gen.SmileDeServerSrc.hashes.lookup "fn server_from_reader" = some 7523097036048896092 /- "{letmutde=ServerDeserializer::from_reader(reader);letvalue=T::deserialize(&mutde)?;de.end()?;Ok(value)}" -/ ∧
+    Gen.SmileDeServerSrc.hashes.lookup "fn server_from_slice" = some 9726012999506703783 /- "{letmutde=ServerDeserializer::from_slice(s);letvalue=T::deserialize(&mutde)?;de.end()?;Ok(value)}" -/ ∧
+    Gen.SmileDeServerSrc.hashes.lookup "fn server_from_mut_slice" = some 4995850889360896672 /- "{letmutde=ServerDeserializer::from_mut_slice(s);letvalue=T::deserialize(&mutde)?;de.end()?;Ok(value)}" -/ ∧
+    Gen.SmileDeServerSrc.hashes.lookup "ServerDeserializer<'_,IoRead<R>>::from_reader" = some 6593618484806081815 /- "{ServerDeserializer(serde_smile::Deserializer::from_reader(reader))}" -/ ∧
+    Gen.SmileDeServerSrc.hashes.lookup "ServerDeserializer<'a,SliceRead<'a>>::from_slice" = some 14582929309990185278 /- "{ServerDeserializer(serde_smile::Deserializer::from_slice(bytes))}" -/ ∧
+    Gen.SmileDeServerSrc.hashes.lookup "ServerDeserializer<'a,MutSliceRead<'a>>::from_mut_slice" = some 11885368390158098473 /- "{ServerDeserializer(serde_smile::Deserializer::from_mut_slice(bytes))}" -/ ∧
+    Gen.SmileDeServerSrc.hashes.lookup "ServerDeserializer<'de,R>::end" = some 1737334758775072841 /- "{self.0.end()}" -/ ∧
+    Gen.JsonDeSrc.hashes.lookup "fn client_from_reader" = some 11588487256068215368 /- "{letmutde=ClientDeserializer::from_reader(reader);letvalue=T::deserialize(&mutde)?;de.end()?;Ok(value)}" -/ ∧
+    Gen.JsonDeSrc.hashes.lookup "fn client_from_str" = some 10162431175074099656 /- "{letmutde=ClientDeserializer::from_str(s);letvalue=T::deserialize(&mutde)?;de.end()?;Ok(value)}" -/ ∧
+    Gen.JsonDeSrc.hashes.lookup "fn client_from_slice" = some 6675373267029626547 /- "{letmutde=ClientDeserializer::from_slice(s);letvalue=T::deserialize(&mutde)?;de.end()?;Ok(value)}" -/ ∧
+    Gen.JsonDeSrc.hashes.lookup "ClientDeserializer<IoRead<R>>::from_reader" = some 15691795487078593245 /- "{ClientDeserializer(serde_json::Deserializer::from_reader(reader))}" -/ ∧
+    Gen.JsonDeSrc.hashes.lookup "ClientDeserializer<SliceRead<'a>>::from_slice" = some 13399570450002846636 /- "{ClientDeserializer(serde_json::Deserializer::from_slice(bytes))}" -/ ∧
+    Gen.JsonDeSrc.hashes.lookup "ClientDeserializer<StrRead<'a>>::from_str" = some 8534830568909394689 /- "{ClientDeserializer(serde_json::Deserializer::from_str(s))}" -/ ∧
+    Gen.JsonDeSrc.hashes.lookup "ClientDeserializer<R>::end" = some 1737334758775072841 /- "{self.0.end()}" -/ ∧
+    Gen.SmileDeClientSrc.hashes.lookup "fn client_from_reader" = some 11588487256068215368 /- "{letmutde=ClientDeserializer::from_reader(reader);letvalue=T::deserialize(&mutde)?;de.end()?;Ok(value)}" -/ ∧
+    Gen.SmileDeClientSrc.hashes.lookup "fn client_from_slice" = some 6675373267029626547 /- "{letmutde=ClientDeserializer::from_slice(s);letvalue=T::deserialize(&mutde)?;de.end()?;Ok(value)}" -/ ∧
+    Gen.SmileDeClientSrc.hashes.lookup "fn client_from_mut_slice" = some 190039742194988828 /- "{letmutde=ClientDeserializer::from_mut_slice(s);letvalue=T::deserialize(&mutde)?;de.end()?;Ok(value)}" -/ ∧
+    Gen.SmileDeClientSrc.hashes.lookup "ClientDeserializer<'_,IoRead<R>>::from_reader" = some 8511477716685037707 /- "{ClientDeserializer(serde_smile::Deserializer::from_reader(reader))}" -/ ∧
+    Gen.SmileDeClientSrc.hashes.lookup "ClientDeserializer<'a,SliceRead<'a>>::from_slice" = some 8821054405427350610 /- "{ClientDeserializer(serde_smile::Deserializer::from_slice(bytes))}" -/ ∧
+    Gen.SmileDeClientSrc.hashes.lookup "ClientDeserializer<'a,MutSliceRead<'a>>::from_mut_slice" = some 16386632783192885981 /- "{ClientDeserializer(serde_smile::Deserializer::from_mut_slice(bytes))}" -/ ∧
+    Gen.SmileDeClientSrc.hashes.lookup "ClientDeserializer<'de,R>::end" = some 1737334758775072841 /- "{self.0.end()}" -/ := by
+  decide +kernel
+
 /-- `UnknownFieldsBehavior`: struct deserialization is intercepted, the current key is recorded, and
     a request to ignore a value becomes `unknown_field(key)`; keys use the same behaviour -/
 theorem gen_unknown_fields_behavior :
